@@ -29,6 +29,7 @@ SHAPES = [
     ("lead-empty", ["", "CC"], 2), ("trail-empty", ["CC", ""], 2), ("failed", [], 0),
     ("big", ["CCC"], 3), ("small-first", ["C", "CC"], 3),
     ("duplicate", ["CC", "CC"], 4),      # two molecules with the identical pattern string
+    ("deuterated", ["[2H]C([2H])[2H]"], 4),   # hydrogens that are graph atoms of the pattern
 ]
 
 
@@ -226,6 +227,23 @@ def schedule_job(job):
     return {"n": n, "bad": bad, "outcomes": len(outcomes)}
 
 
+def cancel_job(job):
+    """every single cancelled RDKit search (its own time budget expired) of a batch: every record
+    that is still reported without an issue must satisfy the attribution clauses"""
+    rxns = job["rxns"]
+    bad = []
+    n = [0]
+
+    def on_exec(dev, cap, ctl):
+        n[0] += 1
+        b, _ = judge_records(list(rxns), cap, alone_cmp=False)
+        for k, w in b:
+            bad.append({"key": ["cancelled-search"] + k, "what": w + " faults={}".format(explore.dev_to_json(dev)), "dev": explore.dev_to_json(dev)})
+
+    explore.subtree(lambda: observe_find(rxns), {}, ("rdkit",), 1, on_exec=on_exec, rdkit_alts=("normal", "cancel"))
+    return {"n": n[0], "bad": bad}
+
+
 def schedule_roots(job):
     rxns = job["rxns"]
     canon = lambda o: json.dumps(o, sort_keys=True, default=str)  # noqa: E731
@@ -249,7 +267,7 @@ def run(tier, seed):
     # (i)
     all_shapes = list(range(len(SHAPES)))
     jobs = [{"n_rx": 1, "shapes": all_shapes, "first": [s]} for s in all_shapes]
-    two = all_shapes if thorough else [0, 1, 2, 3, 4, 6, 9]
+    two = all_shapes if thorough else [0, 1, 2, 3, 4, 6, 9, 10]
     jobs += [{"n_rx": 2, "shapes": two, "first": list(f)} for f in itertools.product(two, repeat=2)]
     jobs += [{"n_rx": 3, "shapes": [0, 2, 3, 4], "first": list(f)} for f in itertools.product([0, 2, 3, 4], repeat=3)] if thorough else []
     rt = pmap("checks.c10:tables_job", jobs, chunk=1, seed=seed, timeout=7200)
@@ -285,6 +303,12 @@ def run(tier, seed):
     for j, x in zip(sj, rs):
         for b in x["bad"]:
             res.add(Violation("schedule", {"rxns": j["rxns"], "iso": j["iso"], "deviations": b["dev"]}, None, None, b["key"], b["what"]))
+    cancel_batches = [[MCS_BOUND[1], MCS_BOUND[4]], [MCS_BOUND[9], MCS_BOUND[0]], [MCS_BOUND[7], MCS_BOUND[5]]]
+    rcn = pmap("checks.c10:cancel_job", [{"rxns": b} for b in cancel_batches], chunk=1, seed=seed, timeout=7200)
+    for b, x in zip(cancel_batches, rcn):
+        n_exec += x["n"]
+        for v in x["bad"][:6]:
+            res.add(Violation("cancelled-search", {"rxns": b, "deviations": v["dev"]}, None, None, v["key"], v["what"]))
     n_corpus = n_corpus_clean = 0
     if thorough:
         from checks import pipefam as pf
@@ -309,10 +333,10 @@ def run(tier, seed):
         "corpus_reactions_searched": n_corpus,
         "evaluations": n_tables + len(subs) + n_exec,
         "distinct_nontrivial": n_tables + n_clean,
-        "rule": "(i) every table of 3 conditions x 1 reaction over 10 entry shapes and x 2 reactions over {} shapes{} through "
+        "rule": "(i) every table of 3 conditions x 1 reaction over 11 entry shapes and x 2 reactions over {} shapes{} through "
                 "get_largest_condition vs argmax reference; (ii) every ordered sub-batch of size 1..2{} of 10 MCS-bound + 2 "
                 "solved reactions observed at MCSSearch.find inside real runs, plus every single{} task-order deviation at the "
-                "stage's Parallel calls for 3 batches{}.".format(
+                "stage's Parallel calls for 3 batches, and every single cancelled RDKit search of 3 two-row batches{}.".format(
                     len(two), " and 3 reactions over 4 shapes" if thorough else "",
                     " and every triple" if thorough else " and 60 covering triples", " and double" if thorough else "",
                     "; complete corpus" if thorough else ""),
@@ -331,6 +355,11 @@ def replay(v):
     if v.sub in ("attribution", "corpus"):
         x = batch_job(c["rxns"]) if v.sub == "attribution" else corpus_job(c["rxns"])
         return [Violation(v.sub, c, None, None, b["key"], b["what"]) for b in x["bad"] if b["key"] == v.key]
+    if v.sub == "cancelled-search":
+        dev = explore.dev_from_json(c["deviations"])
+        cap, _ = explore.execute(lambda: observe_find(c["rxns"]), dev, ("rdkit",), rdkit_alts=("normal", "cancel"))
+        bad, _ = judge_records(c["rxns"], cap, alone_cmp=False)
+        return [Violation(v.sub, c, None, None, ["cancelled-search"] + k, w) for k, w in bad if ["cancelled-search"] + k == v.key]
     if v.sub == "schedule":
         dev = explore.dev_from_json(c["deviations"])
         canon = lambda o: json.dumps(o, sort_keys=True, default=str)  # noqa: E731
